@@ -183,6 +183,26 @@ func driveC18(t *testing.T, out *vEmitter) {
 		if fc.secure {
 			scheme = "https"
 		}
+		// the configuration as the operator gave it (after validation): what every later response is held against,
+		// whatever serving requests may have done to the live options
+		snap := e.opts.Cookie
+		snap.Domains = append([]string(nil), e.opts.Cookie.Domains...)
+		if len(fc.domains) >= 2 && !fc.rp {
+			// a sequence of hosts matching different entries (and none), each host seen more than once
+			for i, h := range []string{"deep.a.example.com", "other.example.com:8443", "deep.a.example.com", "unrelated.test", "x.a.example.com", "other.example.com", "deep.a.example.com"} {
+				hb := e.newBrowser(scheme + "://" + h)
+				res := hb.do("GET", e.opts.ProxyPrefix+"/start?rd=%2F", nil, "")
+				raws := res.Header["Set-Cookie"]
+				for j, c := range res.Cookies {
+					raw := ""
+					if j < len(raws) {
+						raw = raws[j]
+					}
+					vCheckCookie(out, &snap, h, c, raw, fmt.Sprintf("%s/host-sequence-%d", fc.name, i))
+				}
+				out.Stat("host_sequence_responses", 1)
+			}
+		}
 		b := e.newBrowser(scheme + "://" + fc.host)
 		eff := fc.host
 		var hdr [][2]string
@@ -204,7 +224,7 @@ func driveC18(t *testing.T, out *vEmitter) {
 				if i < len(raws) {
 					raw = raws[i]
 				}
-				vCheckCookie(out, &e.opts.Cookie, eff, c, raw, fc.name+"/"+where)
+				vCheckCookie(out, &snap, eff, c, raw, fc.name+"/"+where)
 				out.Obs("monitor", true, vL("set_cookie", vS(fc.name+"/"+where), vS(c.Name), vI(int64(len(raw)))))
 				if c.MaxAge < 0 {
 					if prev, ok := seen[c.Name]; ok && (prev.Path != c.Path || prev.Domain != c.Domain) {
